@@ -93,6 +93,7 @@ func c02Budget(c *Ctx) {
 	c01Self(c)
 	c.Rule("budget")
 	configImmutable(c, "retrypolicy")
+	buildCopiesConfig(c)
 	// execute obtains executors per execution: ToExecutor is invoked inside execute (C01.compose) and nowhere cached
 	ix := BuildIndex(c.P)
 	for _, pkg := range []string{"retrypolicy"} {
@@ -138,4 +139,53 @@ func configImmutable(c *Ctx, pkg string) {
 		}
 	}
 	c.Floor("configuration fields of "+pkg, n, 8)
+}
+
+// buildCopiesConfig: the policies whose Build takes a snapshot of the builder's configuration (retry, hedge,
+// fallback, timeout — confirmed by reading; the other four alias the builder, an upstream TODO) must keep doing
+// so: the built policy's config is a fresh object equal to the builder's fields, not the builder itself, so a
+// builder that is modified or specialised after Build cannot change a policy that is already in use.
+func buildCopiesConfig(c *Ctx) {
+	c.Rule("build-snapshot")
+	n := 0
+	for _, pkg := range []string{"retrypolicy", "hedgepolicy", "fallback", "timeout"} {
+		fn := c.P.Func(pkg + ".(*config).Build")
+		if fn == nil {
+			c.Unresolved(pkg+".(*config).Build", "not found")
+			continue
+		}
+		ev := NewEvaluator(c.P, EvalConfig{})
+		ps := ev.Run(fn)
+		recv := ev.Param(fn, fn.Params[0].Name())
+		ok := ev.Err == nil && len(ps) > 0
+		for _, p := range ps {
+			if p.Exit != ExitReturn {
+				continue
+			}
+			r := p.Rets[0]
+			cfg := ev.LoadField(p.State, r, "config")
+			if r.Op != "alloc" || cfg == nil || cfg.Op != "alloc" || cfg == recv {
+				ok = false
+				c.Fail(c.fn(fn)+"@"+pkg, c.P.FuncPos(fn), "Build must give the policy its own snapshot of the configuration (a fresh copy), not the builder itself: otherwise changing or re-using the builder after Build changes a policy that is already in use", pathTrace(ev, p))
+				continue
+			}
+			// the snapshot's scalar fields equal the builder's
+			if st, isS := recv.Typ.Underlying().(*types.Pointer); isS {
+				if sst, isSt := st.Elem().Underlying().(*types.Struct); isSt {
+					for i := 0; i < sst.NumFields(); i++ {
+						f := sst.Field(i).Name()
+						if ev.LoadField(p.State, cfg, f) != ev.LoadField(ev.NewState(), recv, f) {
+							ok = false
+							c.Fail(c.fn(fn)+"@"+pkg, c.P.FuncPos(fn), "the configuration snapshot differs from the builder in field "+f, pathTrace(ev, p))
+						}
+					}
+				}
+			}
+		}
+		if ok {
+			n++
+			c.Ok(c.fn(fn)+"@"+pkg, c.P.FuncPos(fn), "the built policy holds a fresh snapshot of the builder's configuration")
+		}
+	}
+	c.Floor("snapshotting Build methods", n, 4)
 }
